@@ -172,6 +172,51 @@ fn judge(case: &Case<Model>, rep: &mut Report) {
                     }
                 }
             }
+            // the converse for fields whose whole type is the helper's type (bare, optional or doubly optional): the
+            // declaration `at?: Date | null` is only true of parsed JSON if the reviver turns that key's string into a Date.
+            // typeshare registers exactly these fields; Date / Uint8Array nested in containers are not revived (counted below)
+            fn whole(t: &TypeExpr) -> Option<&str> {
+                match t {
+                    TypeExpr::Name(n, a) if a.is_empty() && (n == "Date" || n == "Uint8Array") => Some(n.as_str()),
+                    TypeExpr::Nullable(x) => whole(x),
+                    TypeExpr::Union(v) => {
+                        let rest: Vec<&TypeExpr> = v.iter().filter(|x| !matches!(x, TypeExpr::Name(n, a) if a.is_empty() && (n == "null" || n == "undefined"))).collect();
+                        if rest.len() == 1 {
+                            whole(rest[0])
+                        } else {
+                            None
+                        }
+                    }
+                    _ => None,
+                }
+            }
+            let mut direct: Vec<(&str, &str)> = vec![]; // (wire key, helper type)
+            for d in &file.defs {
+                for f in &d.fields {
+                    if let Some(h) = whole(&f.ty) {
+                        direct.push((f.wire_key.as_str(), h));
+                    }
+                }
+                for v in &d.variants {
+                    if let Payload::Struct(fs) = &v.payload {
+                        for f in fs {
+                            if let Some(h) = whole(&f.ty) {
+                                direct.push((f.wire_key.as_str(), h));
+                            }
+                        }
+                    }
+                }
+            }
+            for (key, h) in direct {
+                rep.count("ts_fields_of_a_helper_type_checked", 1);
+                let tested = rv.map(|r| r.extra.iter().any(|(k, v)| k == "key-test" && v == key)).unwrap_or(false);
+                // Uint8Array fields are revived by value shape (an array of numbers), not by key
+                if h == "Date" && !tested {
+                    rep.violate(sig("reviver-missing-for-field"), format!("field {key:?} is declared as Date but {}", if rv.is_some() { "ReviverFunc does not test that key" } else { "no ReviverFunc / ReplacerFunc is generated" }), case.detail(json!({"key": key})));
+                } else if h == "Uint8Array" && rv.is_none() {
+                    rep.violate(sig("reviver-missing-for-field"), format!("field {key:?} is declared as Uint8Array but no ReviverFunc / ReplacerFunc is generated"), case.detail(json!({"key": key})));
+                }
+            }
             // strong form (informational): a typeshare-introduced Date / Uint8Array without helpers
             if (used.contains("Date") || used.contains("Uint8Array")) && rv.is_none() {
                 rep.count("ts_date_or_bytes_type_without_helpers(informational)", 1);
@@ -406,7 +451,7 @@ pub fn run(ctx: &Ctx) -> (Spec, Report) {
     let _ = std::fs::remove_dir_all(&scratch);
     let spec = Spec {
         level: "exploration",
-        rule: format!("one trigger type out of {{(), u8, u16, u32, U53, OffsetDateTime, mapped Vec<u8>, generic T, HashMap<String,u8>}} at one position out of {{field, struct-variant field, payload, alias, generic argument, skipped field (PhantomData)}} under 0-3 random wrappers, plain / with serde(default) / with a type override for one of kotlin, swift, typescript, scala, go on the subject field (all {n_grid} combinations), then random placements up to depth 4 with other triggers combined; for each backend the names it introduces are collected from the parsed output and must be defined or imported in the same file (Swift CodableVoid, Scala UByte..ULong, Go package selectors / encoding/json, Kotlin serialization imports, TS reviver/replacer pair and its key tests, every Python name via CPython ast + import under stub pydantic); {n_cli} multi-crate Swift runs of the real binary check Codable.swift and {n_py} multi-crate Python runs resolve every name of every generated file separately (the backend object is shared by the files of one run); distinct = (language, trigger, position, depth class, combined?)"),
+        rule: format!("one trigger type out of {{(), u8, u16, u32, U53, OffsetDateTime, mapped Vec<u8>, generic T, HashMap<String,u8>}} at one position out of {{field, struct-variant field, payload, alias, generic argument, skipped field (PhantomData)}} under 0-3 random wrappers, plain / with serde(default) / with a type override for one of kotlin, swift, typescript, scala, go on the subject field (all {n_grid} combinations), then random placements up to depth 4 with other triggers combined; for each backend the names it introduces are collected from the parsed output and must be defined or imported in the same file (Swift CodableVoid, Scala UByte..ULong, Go package selectors / encoding/json, Kotlin serialization imports, TS reviver/replacer pair, its key tests, and conversely a key test for every field whose whole type is Date (bare, optional, doubly optional), every Python name via CPython ast + import under stub pydantic); {n_cli} multi-crate Swift runs of the real binary check Codable.swift and {n_py} multi-crate Python runs resolve every name of every generated file separately (the backend object is shared by the files of one run); distinct = (language, trigger, position, depth class, combined?)"),
         assumptions: vec![
             "TypeScript: the decisive form is the weak one (helpers come in pairs and test existing keys); a Date/Uint8Array type without helpers is counted, not reported, because the generated code never uses the helper names itself".into(),
         ],
